@@ -8,6 +8,8 @@ import LitexProofs.Wishbone.ToCsr
 import LitexProofs.Wishbone.Cache
 import LitexProofs.Wishbone.ConvLive
 import LitexProofs.Wishbone.CacheLive
+import LitexProofs.Wishbone.BurstWait
+import LitexProofs.Wishbone.ToCsrBankSide
 /-
   C07 — Wishbone adapters and memories are transparent to the master: flat byte-addressable memory semantics.
 
@@ -135,6 +137,66 @@ example :
       [(2, [2]), (3, [3]), (0, [0]), (1, [1]), (2, [6]), (3, [7])] ∧
     ¬ Consistent c.nb (Mem.ofList [0, 1, 2, 3, 4, 5, 6, 7]) (ops (sram c [0, 1, 2, 3, 4, 5, 6, 7]) c.idx ins) := by
   decide
+
+/-! ### Bursts with master wait states
+
+  `BurstMasterW m maxWrap ins` (LitexModel/Wishbone/SramBurst.lean): as `BurstMaster`, and between two beats of a
+  burst the master may also present no strobe — a wait state (`stb` low with `cyc` held; `we`/`adr`/`sel`/`dat`/
+  `cti`/`bte` held *or* garbage), for any number of cycles, or the abandonment of the burst (`cyc` dropped).
+  Afterwards it is free: it resumes the burst at the next address, starts another burst (other `we`, other
+  address, other `bte`) or a classic cycle, or idles.  Ending a burst early with `cti = 7` and changing `we`
+  between back-to-back bursts are already part of `BurstMaster`.  `BurstMaster` is the special case without
+  such cycles (`BurstFrom.toW`). -/
+
+/-- **`wishbone.SRAM` with the burst address counter is a flat byte memory for burst masters that insert wait
+    states or abandon bursts** (`_partial`: `maxWrap`, as `sram_burst_refines_mem_partial`).  A cycle without strobe
+    resets the address counter; the next beat is served at the address the master presents and the counter is
+    latched again from it — so no beat is transferred in a wait state and none is served at a stale counter
+    value (seeded change C07-r4m2: the counter advanced during wait states).
+
+    The acknowledge statement is `AckStrobedOrPre`: `ack` is given to a presented strobe, or without one only in
+    the cycle right after an acknowledged `cti = 2` beat (the registered-feedback pre-acknowledge, which
+    completes no cycle: `ops` counts strobed cycles only).  The strict `AckOnlyStrobed` does *not* hold for
+    these masters — witness below. -/
+theorem sram_burst_waits_refines_mem_partial (c : SramCfg) (hd : 0 < c.depth) (hrw : c.readOnly = false)
+    (hb : c.burst = true) (haw : 4 ≤ c.aw) (init : List Byte) (ins : List (Req × Unit))
+    (hm : BurstMasterW (sram c init) true ins) (hadr : ∀ i ∈ ins, i.1.adr < 2 ^ c.aw) :
+    Consistent c.nb (Mem.ofList (Sram.initMem c init)) (ops (sram c init) c.idx ins) ∧
+    AckStrobedOrPre (sram c init) ins :=
+  (Sram.brefines c hd hrw hb haw init).runW (Sram.waitOk c init) ins _ .free _ (Sram.binv_init c init) hm hadr
+
+/-- Every `BurstMaster` history is a `BurstMasterW` history. -/
+theorem burstMaster_is_burstMasterW {ω τ : Type} (m : Slave ω τ) (mw : Bool) (ins : List (Req × ω))
+    (h : BurstMaster m mw ins) : BurstMasterW m mw ins := BurstFrom.toW m mw ins _ _ h
+
+/-- Non-vacuity (the scenario of seeded change C07-r4m2): 8-bit, 16-word bursting SRAM.  Linear write burst to
+    4, 5, 6, 7 with two wait states after the second beat (`stb` low, `cyc`/`cti`/`adr` of the coming beat held),
+    one wait state with garbage on the lines after the third, then a read burst 4, 5 abandoned by dropping `cyc`
+    and a read burst 6, 7 ended with `cti = 7`: every beat lands at / comes from its own address. -/
+example :
+    let c : SramCfg := { nb := 1, depth := 16, aw := 4, readOnly := false, burst := true }
+    let q (stb we : Bool) (a d cti : Nat) : Req × Unit :=
+      ({ cyc := true, stb := stb, we := we, adr := a, sel := [true], dat := [d], cti := cti, bte := 0 }, ())
+    let w := q true true
+    let r (a cti : Nat) := q true false a 0 cti
+    let ins := [w 4 0x44 2, w 4 0x44 2, w 5 0x55 2, q false true 6 0x66 2, q false true 6 0x66 2, w 6 0x66 2,
+                w 6 0x66 2, q false false 13 0x99 7, w 7 0x77 7, w 7 0x77 7,
+                r 4 2, r 4 2, r 5 2, (Req.idle, ()), r 6 2, r 6 2, r 7 7]
+    BurstMasterW (sram c []) true ins ∧ ¬ BurstMaster (sram c []) true ins ∧
+    (ops (sram c []) c.idx ins).map (fun op => (op.adr, op.we, op.dat)) =
+      [(4, true, [0x44]), (5, true, [0x55]), (6, true, [0x66]), (7, true, [0x77]),
+       (4, false, [0x44]), (5, false, [0x55]), (6, false, [0x66]), (7, false, [0x77])] ∧
+    AckStrobedOrPre (sram c []) ins := by decide
+
+/-- The strict acknowledge statement fails with wait states: a read beat with `cti = 2`, acknowledged, followed
+    by a wait state — `ack` is still up in the wait state (it completes no cycle). -/
+example :
+    let c : SramCfg := { nb := 1, depth := 16, aw := 4, readOnly := false, burst := true }
+    let q (stb : Bool) : Req × Unit :=
+      ({ cyc := true, stb := stb, we := false, adr := 4, sel := [true], dat := [], cti := 2, bte := 0 }, ())
+    let ins := [q true, q true, q false]
+    BurstMasterW (sram c []) true ins ∧ ¬ AckOnlyStrobed (sram c []) ins ∧
+    (ops (sram c []) c.idx ins).length = 1 := by decide
 
 /-! ## Width converters in front of a byte memory with arbitrary latency
 
@@ -420,6 +482,58 @@ theorem down_burst_over_sram_refines (c : DownCfg) (sc : SramCfg) (init : List B
           _ ≤ 2 ^ sc.aw := hfit) hS).run ins _ .free _
     ⟨Down.ratio_pos c, _, .free, Sram.binv_init sc init, rfl, rfl, rfl⟩ hm hadr
 
+/-- **`burst master with wait states → DownConverter → bursting SRAM` is a flat byte memory**: as
+    `down_burst_over_sram_refines`, for masters that insert wait states between beats or abandon bursts
+    (`BurstMasterW`).  A master wait state is a wait state of the sub-word burst on the narrow side (the SRAM's
+    counter resets, the next sub-word is served at the address the converter presents).  The converter gates its
+    acknowledge with the master's strobe, so the strict `AckOnlyStrobed` holds here. -/
+theorem down_burst_waits_over_sram_refines (c : DownCfg) (sc : SramCfg) (init : List Byte) (n dm awm : Nat)
+    (hnb : sc.nb = c.nbs) (hrw : sc.readOnly = false) (hb : sc.burst = true) (haw4 : 4 ≤ sc.aw)
+    (hdepth : sc.depth = 2 ^ n) (haw : n ≤ sc.aw) (hdm : sc.depth = c.ratio * dm)
+    (hfit : c.ratio * 2 ^ awm ≤ 2 ^ sc.aw)
+    (ins : List (Req × Unit)) (hm : BurstMasterW ((downConv c).over (sram sc init)) false ins)
+    (hadr : ∀ i ∈ ins, i.1.adr < 2 ^ awm) :
+    Consistent c.nbm (Mem.ofList (Sram.initMem sc init)) (ops ((downConv c).over (sram sc init)) (· % dm) ins) ∧
+    AckOnlyStrobed ((downConv c).over (sram sc init)) ins := by
+  have hd : 0 < sc.depth := by rw [hdepth]; exact Nat.two_pow_pos n
+  have hdmpos : 0 < dm := by
+    rcases Nat.eq_zero_or_pos dm with h | h
+    · rw [h, Nat.mul_zero] at hdm; omega
+    · exact h
+  have hS := Sram.brefines sc hd hrw hb haw4 init
+  have hSw := Sram.waitOk sc init
+  rw [hnb] at hS
+  have hfg : ∀ a k, k < c.ratio → sc.idx (k + c.ratio * a) = k + c.ratio * (a % dm) := fun a k hk => by
+    simp only [Sram.idx_pow2 sc n hdepth haw, hdm]
+    exact Down.mod_split c.ratio dm a k hk hdmpos
+  have hP : ∀ (s : DownState) (r : Req) (o : Unit), s.count < c.ratio → r.adr < 2 ^ awm →
+      (Down.toSlave c s r).adr < 2 ^ sc.aw := fun s r _ hcnt hP' => by
+    show s.count + c.ratio * r.adr < 2 ^ sc.aw
+    calc s.count + c.ratio * r.adr < c.ratio + c.ratio * r.adr := by omega
+      _ = c.ratio * (r.adr + 1) := by rw [Nat.mul_add, Nat.mul_one, Nat.add_comm]
+      _ ≤ c.ratio * 2 ^ awm := Nat.mul_le_mul_left _ hP'
+      _ ≤ 2 ^ sc.aw := hfit
+  refine ⟨?_, Down.ack_only_strobed c (sram sc init) ins _⟩
+  exact ((Down.brefines c (sram sc init) sc.idx (· % dm) (Sram.BInv sc) hfg false (fun i => i.1.adr < 2 ^ awm) _ hP hS).runW
+      (Down.waitOk c (sram sc init) sc.idx (· % dm) (Sram.BInv sc) (fun i => i.1.adr < 2 ^ awm) _ hP hS hSw) ins _ .free _
+    ⟨Down.ratio_pos c, _, .free, Sram.binv_init sc init, rfl, rfl, rfl⟩ hm hadr).1
+
+/-- Non-vacuity: 16-bit master over an 8-bit bursting SRAM of 16 words; linear write burst 2, 3, 4 with a wait
+    state (lines held) after the first beat and a garbage wait state after the second, read back by a burst that
+    is abandoned after two beats, then a classic read. -/
+example :
+    let c : DownCfg := { nbs := 1, cbits := 1 }
+    let sc : SramCfg := { nb := 1, depth := 16, aw := 4, readOnly := false, burst := true }
+    let q (stb we : Bool) (a : Nat) (d : List Byte) (cti n : Nat) : List (Req × Unit) :=
+      List.replicate n ({ cyc := true, stb := stb, we := we, adr := a, sel := [true, true], dat := d, cti := cti, bte := 0 }, ())
+    let ins := q true true 2 [0x20, 0x21] 2 3 ++ q false true 3 [0x30, 0x31] 2 2 ++ q true true 3 [0x30, 0x31] 2 3 ++
+               q false false 9 [0x99] 7 1 ++ q true true 4 [0x40, 0x41] 7 3 ++
+               q true false 2 [] 2 3 ++ q true false 3 [] 2 2 ++ [(Req.idle, ())] ++ q true false 4 [] 0 4
+    BurstMasterW ((downConv c).over (sram sc [])) false ins ∧
+    (ops ((downConv c).over (sram sc [])) (· % 8) ins).map (fun op => (op.adr, op.we, op.dat)) =
+      [(2, true, [0x20, 0x21]), (3, true, [0x30, 0x31]), (4, true, [0x40, 0x41]),
+       (2, false, [0x20, 0x21]), (3, false, [0x30, 0x31]), (4, false, [0x40, 0x41])] := by decide
+
 /-- Non-vacuity: 16-bit master over an 8-bit bursting SRAM of 16 words.  A linear write burst of 3 beats from 2
     (6 sub-words: 2 cycles for the first, then one per cycle), a wrap-4 read burst 3, 0, 1 (degraded to classic
     sub-word cycles) and a classic partial write with a skipped sub-word. -/
@@ -485,18 +599,77 @@ theorem remap_over_sram_refines (c : RemapCfg) (sc : SramCfg) (init : List Byte)
       (fun _ _ _ => by simp [Sram.NoBurst, Sram.adrBurst, hnb0]) (Sram.refines sc hd hrw init)).run _
     (Sram.inv_init sc init) ins hm (fun _ _ => trivial)
 
-/-
-  Open (stated, not proved — covered by the tie and the monitor; the probe of finding C07-wb2csr-no-byte-enables
-  runs the bridge against a real `CSRBank`):
+/-! ## Wishbone2CSR over a `CSRBank` (b-c12's bank model `Csr.bank`, imported unchanged)
 
-  theorem wb2csr_over_csrbank_refines_partial_open (c : ToCsrCfg) (b : Csr.BankCfg) (hfit : b.Fits)
-      (hplain : every register of `b` is a one-word CSRStorage without device writes) (ins) (Classic, FullSelWrites,
-      addresses inside the bank) :
-      Consistent c.nb (bank words) (ops (Wishbone2CSR over Csr.bank b) (ToCsr.adrMap c) ins)
-  -- `wb2csr_refines_partial` proves the same over `csrFile` (a register file with the CSR bus timing: data one
-  -- cycle after the address, whole-word write on `we`); linking `csrFile` to b-c12's `Csr.bank` for banks of plain
-  -- one-word storage registers (via `bank_write_exact` / `bank_read_storage`) is not done.
--/
+  `wb2csrBank c b` (LitexModel/Wishbone/ToCsrBank.lean): the bridge wired to the bank; the environment input of
+  every cycle is the device side of the registers (`List Csr.Dev`, arbitrary).  `PlainBank nb b`: every register
+  is a `CSRStorage` exactly one bus word wide without `write_from_dev`, and the bank fits its page.
+  `bankV nb b s`: the register contents as a byte memory (CSR word `a` at bytes `a·nb ..`).
+  `ToCsr.PB c (bankMapped b) i`: all-or-nothing write selects, the CSR address `(adr >> shift) mod 2^caw` decodes
+  to a register of the bank, the data lines carry bytes. -/
+
+/-- **`Wishbone2CSR` over a `CSRBank` of one-word storages is a flat memory of the register contents**
+    (`_partial`: all-or-nothing write selects — finding C07-wb2csr-no-byte-enables, witness below): reads return
+    the register contents (initially the reset values), full-word writes land in exactly the addressed register,
+    reads have no side effect on the contents (a later read returns the same), no acknowledge without a strobe
+    — both `register` modes, word and byte addressing (`shift`), every bank address/paging, every device-side
+    input, every gap.  Obtained from `ToCsr.refinesOn` (the bridge over any CSR side that is a register file on
+    its mapped addresses) and `bank_sideOk` (b-c12's `Csr.bank` is one). -/
+theorem wb2csr_over_csrbank_refines_partial (c : ToCsrCfg) (b : Csr.BankCfg) (hp : PlainBank c.nb b)
+    (ins : List (Req × List Csr.Dev)) (hm : Classic (wb2csrBank c b) ins)
+    (hP : ∀ i ∈ ins, ToCsr.PB c (bankMapped b) i) :
+    Consistent c.nb (bankV c.nb b (Csr.bank b).init) (ops (wb2csrBank c b) (ToCsr.adrMap c) ins) ∧
+    AckOnlyStrobed (wb2csrBank c b) ins :=
+  (ToCsr.refinesOn c (bankSide c.nb b) (bankV c.nb b) (bankMapped b) (bank_sideOk c.nb b hp)).run _
+    (ToCsr.invOn_init c _ _ _ rfl) ins hm hP
+
+/-- The same bridge over *any* CSR side that behaves as a register file on its mapped addresses (`CsrSideOk`:
+    no change without `we`, whole-word replacement with `we`, `dat_r` one cycle after the address). -/
+theorem wb2csr_over_side_refines_partial {ω κ : Type} (c : ToCsrCfg) (side : CsrSide ω κ) (V : κ → Mem)
+    (Mapped : Nat → Prop) (h : CsrSideOk side c.nb V Mapped) (ins : List (Req × ω))
+    (hm : Classic (wb2csrOn c side) ins) (hP : ∀ i ∈ ins, ToCsr.PB c Mapped i) :
+    Consistent c.nb (V side.init) (ops (wb2csrOn c side) (ToCsr.adrMap c) ins) ∧
+    AckOnlyStrobed (wb2csrOn c side) ins :=
+  (ToCsr.refinesOn c side V Mapped h).run _ (ToCsr.invOn_init c _ _ _ rfl) ins hm hP
+
+/-- One acknowledge per access, over any CSR side: in the third cycle of a request (registered access) resp. the
+    second (un-registered access). -/
+theorem wb2csr_on_ack_latency {ω κ : Type} (c : ToCsrCfg) (side : CsrSide ω κ) (r : Req) (hact : r.active = true)
+    (s : ToCsrState) (t : κ) (o : ω) (hs : s.fsm = if c.register then .idle else .writeRead) :
+    ackedIn (wb2csrOn c side) r (s, t) (List.replicate (if c.register then 3 else 2) o) = true := by
+  cases hreg : c.register <;>
+    simp [hreg] at hs <;>
+    simp [ackedIn, List.replicate, wb2csrOn, ToCsr.rsp, ToCsr.next, hreg, hs, hact]
+
+/-- Non-vacuity: 16-bit bridge (registered) over bank number 1 (`paging = 0x10`: 4 words per page) with two 16-bit
+    storages, resets `0xB2A1` and `0`.  Read of register 0 (CSR address 4) returns its reset value, full-word
+    write to register 1 (address 5), read back, read of register 0 again: untouched. -/
+example :
+    let c : ToCsrCfg := { nb := 2, register := true, shift := 0, caw := 4 }
+    let b : Csr.BankCfg := { bw := 16, ord := .big, pbits := 2, address := 1,
+                             regs := [{ kind := .storage, size := 16, reset := 0xB2A1 }, { kind := .storage, size := 16 }] }
+    let q (we : Bool) (a : Nat) (d : List Byte) : List (Req × List Csr.Dev) :=
+      List.replicate 3 ({ cyc := true, stb := true, we := we, adr := a, sel := [true, true], dat := d, cti := 0, bte := 0 }, [])
+    let ins := q false 4 [] ++ q true 5 [0x34, 0x12] ++ q false 5 [] ++ q false 4 []
+    PlainBank c.nb b ∧ Classic (wb2csrBank c b) ins ∧ (∀ i ∈ ins, bankMapped b (ToCsr.csrAdr c i.1)) ∧
+    (ops (wb2csrBank c b) (ToCsr.adrMap c) ins).map (fun op => (op.adr, op.we, op.dat)) =
+      [(4, false, [0xA1, 0xB2]), (5, true, [0x34, 0x12]), (5, false, [0x34, 0x12]), (4, false, [0xA1, 0xB2])] := by
+  refine ⟨⟨by decide, by decide, by decide, by decide⟩, by decide, by decide, by decide⟩
+
+/-- Negative witness for the excluded region, on the bank: write of lane 0 only (`sel = 01`) to register 0 holding
+    `0xB2A1`, then a full read returns `[0x11, 0x22]` — the unselected byte was overwritten. -/
+example :
+    let c : ToCsrCfg := { nb := 2, register := true, shift := 0, caw := 4 }
+    let b : Csr.BankCfg := { bw := 16, ord := .big, pbits := 2, address := 1,
+                             regs := [{ kind := .storage, size := 16, reset := 0xB2A1 }, { kind := .storage, size := 16 }] }
+    let q (we : Bool) (sel : List Bool) (d : List Byte) : List (Req × List Csr.Dev) :=
+      List.replicate 3 ({ cyc := true, stb := true, we := we, adr := 4, sel := sel, dat := d, cti := 0, bte := 0 }, [])
+    let ins := q true [true, false] [0x11, 0x22] ++ q false [true, true] []
+    Classic (wb2csrBank c b) ins ∧
+    (ops (wb2csrBank c b) (ToCsr.adrMap c) ins).map (fun op => (op.adr, op.we, op.dat)) =
+      [(4, true, [0x11, 0x22]), (4, false, [0x11, 0x22])] ∧
+    bankV c.nb b (Csr.bank b).init 9 = 0xB2 := by
+  refine ⟨by decide, by decide, by decide⟩
 
 /-- **`master → Cache → SRAM` is a flat byte memory** (`_partial`, same hypothesis as `cache_refines_mem_partial`):
     the real SRAM model (two-cycle classic slave that writes in both cycles) fills the cache's slave address space
